@@ -97,29 +97,47 @@ def num_key(v):
     return None if v is None else repr(v)
 
 
+FIT_SKIP = ('_values', '_weights', 'wvalues')
+IND_SKIP = ('fitness', 'graph', 'metadata', 'native_generation', 'parent_operator', 'uid')
+
+
 def fit_key_mem(f):
     if isinstance(f, SingleObjFitness):
-        return ('S', tuple(num_key(v) for v in f.values))
+        return ('S', tuple(num_key(v) for v in f.values), _obj_path(type(f)), op_key(extras_of(vars(f), FIT_SKIP)))
     if isinstance(f, MultiObjFitness):
-        return ('M', tuple(num_key(v) for v in f.wvalues), tuple(num_key(v) for v in f.weights))
+        return ('M', tuple(num_key(v) for v in f.wvalues), tuple(num_key(v) for v in f.weights), _obj_path(type(f)),
+                op_key(extras_of(vars(f), FIT_SKIP)))
     return ('?', jkey(f))
 
 
 def fit_key_json(t):
-    cp = t.get('_class_path', '') if isinstance(t, dict) else ''
-    if cp.endswith('/SingleObjFitness') and set(t) == {'_values', '_class_path'}:
-        return ('S', tuple(num_key(v) for v in t['_values']))
-    if cp.endswith('/MultiObjFitness') and set(t) == {'_weights', 'wvalues', '_class_path'}:
-        return ('M', tuple(num_key(v) for v in t['wvalues']), tuple(num_key(v) for v in t['_weights']))
+    cls = real_class(t.get('_class_path')) if isinstance(t, dict) and isinstance(t.get('_class_path'), str) else None
+    if isinstance(cls, type) and issubclass(cls, SingleObjFitness) and '_values' in t:
+        return ('S', tuple(num_key(v) for v in t['_values']), _obj_path(cls), op_key(extras_of(t, FIT_SKIP)))
+    if isinstance(cls, type) and issubclass(cls, MultiObjFitness) and '_weights' in t and 'wvalues' in t:
+        return ('M', tuple(num_key(v) for v in t['wvalues']), tuple(num_key(v) for v in t['_weights']), _obj_path(cls),
+                op_key(extras_of(t, FIT_SKIP)))
     return ('?', jkey(t))
 
 
 def _canon_path(cp):
-    """canonical '<module>/<qualname>' of what a class path denotes ('?<path>' when it does not resolve)"""
-    obj = real_class(cp) if isinstance(cp, str) else None
+    """canonical '<module>/<qualname>' of what a class path denotes ('?<path>' when it does not resolve).  A path is
+    first imported directly (independent of the serializer); only earlier names go through Serializer._get_class"""
+    obj = None
+    if isinstance(cp, str) and cp.count('/') == 1:
+        obj = import_object(*cp.split('/'))
+    if obj is None and isinstance(cp, str):
+        obj = real_class(cp)
     if obj is None:
         return '?%s' % (cp,)
     return '%s/%s' % (getattr(obj, '__module__', '?'), getattr(obj, '__qualname__', '?'))
+
+
+def _node_class(cp):
+    """class a node of the JSON is decoded to: its own class, or LinkedGraphNode when the class path cannot be
+    imported (documented fallback for external histories)"""
+    c = _canon_path(cp)
+    return 'golem.core.dag.linked_graph_node/LinkedGraphNode' if c.startswith('?') else c
 
 
 def _obj_path(obj):
@@ -130,16 +148,28 @@ def _obj_path(obj):
 
 
 GRAPH_SKIP = ('operator', '_nodes', '_postprocess_nodes')
+NODE_SKIP = ('content', '_nodes_from', 'uid', '_operator', '_fitted_operation', '_node_data', '_parameters')
+
+
+def is_logger_name(k):
+    """attributes named log* (after leading underscores) hold loggers and are left out of every save by design:
+    the property cannot demand them back"""
+    return k.strip('_').startswith('log')
+
+
+def extras_of(d, skip):
+    return {k: v for k, v in d.items() if k not in skip and k != '_class_path' and not is_logger_name(k)}
+
 
 
 def _mem_graph_part(g):
     """(class, postprocess callback, extra fields) of one graph object, read from the object"""
-    extras = {k: v for k, v in vars(g).items() if k not in GRAPH_SKIP and not k.strip('_').startswith('log')}
+    extras = extras_of(vars(g), GRAPH_SKIP)
     return (_obj_path(type(g)), _obj_path(vars(g).get('_postprocess_nodes')), op_key(extras))
 
 
 def _json_graph_part(t):
-    extras = {k: v for k, v in t.items() if k not in GRAPH_SKIP and k != '_class_path'}
+    extras = extras_of(t, GRAPH_SKIP)
     pp = t.get('_postprocess_nodes')
     return (_canon_path(t.get('_class_path')), (_canon_path(pp.get('_class_path')) if isinstance(pp, dict) else pp), op_key(extras))
 
@@ -152,7 +182,8 @@ def graph_key_mem(g):
     if isinstance(g, dict):
         return ('dict', jkey(strip_cp(g)))
     if isinstance(g, Graph):
-        nodes = tuple((str(n.uid), jkey(strip_cp(n.content)), tuple(str(p.uid) if not isinstance(p, str) else p for p in n.nodes_from))
+        nodes = tuple((str(n.uid), jkey(strip_cp(n.content)), tuple(str(p.uid) if not isinstance(p, str) else p for p in n.nodes_from),
+                       _obj_path(type(n)), op_key(extras_of(vars(n), NODE_SKIP)))
                       for n in g.nodes)
         parts = [_mem_graph_part(g)]
         inner = vars(g).get('operator')
@@ -174,7 +205,8 @@ def graph_key_json(t):
             parts = (_json_graph_part(t),)
         else:
             return ('dict', jkey(strip_cp(t)))
-        nodes = tuple((str(n['uid']), jkey(strip_cp(n['content'])), tuple(n['_nodes_from'])) for n in inner['_nodes'])
+        nodes = tuple((str(n['uid']), jkey(strip_cp(n['content'])), tuple(n['_nodes_from']),
+                       _node_class(n.get('_class_path')), op_key(extras_of(n, NODE_SKIP))) for n in inner['_nodes'])
         return ('graph', nodes, parts)
     if isinstance(t, dict):
         return ('dict', jkey(strip_cp(t)))
@@ -188,9 +220,9 @@ class Tok:
     def __init__(self):
         self.t = {
             'uid': {}, 'type': {}, 'op': {}, 'name': {},
-            'fit': {('S', (None,)): 0},
+            'fit': {fit_key_mem(SingleObjFitness()): 0},
             'graph': {graph_key_mem(OptGraph()): 0},
-            'imeta': {jkey(MISSING_META): 0},
+            'imeta': {(jkey(MISSING_META), CUR['ind'], '{}'): 0},
             'label': {'': 0},
             'gmeta': {jkey({}): 0},
             'tuning': {('none',): 0},
@@ -279,7 +311,7 @@ def ind_record(o, tok, ref_of):
     if ng is not None and not (isinstance(ng, int) and ng >= 0):
         raise ShapeError('native_generation %r' % (ng,))
     return {'uid': tok('uid', str(o.uid)), 'fit': tok('fit', fit_key_mem(o.fitness)), 'graph': tok('graph', graph_key_mem(o.graph)),
-            'meta': tok('imeta', op_key(o.metadata)), 'ng': ng, 'op': op}
+            'meta': tok('imeta', (op_key(o.metadata), _obj_path(type(o)), op_key(extras_of(vars(o), IND_SKIP)))), 'ng': ng, 'op': op}
 
 
 CUR = {
@@ -386,9 +418,11 @@ def parse_ehist(text, tok, legacy=False):
 
 
 def parse_eind(i, tok, legacy=False):
-    if not isinstance(i, dict) or list(i) != ['fitness', 'graph', 'metadata', 'native_generation', 'parent_operator', 'uid', '_class_path'] \
-            or not _cp_ok(i, 'ind', legacy):
+    if not isinstance(i, dict) or not set(IND_SKIP) <= set(i) or list(i)[-1] != '_class_path' or list(i)[:-1] != sorted(list(i)[:-1]):
         raise ShapeError('individual %r' % (list(i) if isinstance(i, dict) else i))
+    icls = real_class(i['_class_path'])
+    if not (isinstance(icls, type) and issubclass(icls, Individual)):
+        raise ShapeError('individual class path %r' % i['_class_path'])
     po = i['parent_operator']
     op = None
     if po is not None:
@@ -402,7 +436,7 @@ def parse_eind(i, tok, legacy=False):
     if ng is not None and not (isinstance(ng, int) and ng >= 0):
         raise ShapeError('native_generation %r' % (ng,))
     return {'uid': tok('uid', str(i['uid'])), 'fit': tok('fit', fit_key_json(i['fitness'])), 'graph': tok('graph', graph_key_json(i['graph'])),
-            'meta': tok('imeta', op_key(i['metadata'])), 'ng': ng, 'op': op}
+            'meta': tok('imeta', (op_key(i['metadata']), _canon_path(i.get('_class_path')), op_key(extras_of(i, IND_SKIP)))), 'ng': ng, 'op': op}
 
 
 # ----------------------------------------------------------------------------------------
@@ -718,12 +752,43 @@ class HCallbacks:
 
 
 class HLinkedGraph(LinkedGraph):
-    """LinkedGraph subclass with extra fields"""
+    """LinkedGraph subclass with extra fields (one name contains 'log' in the middle, one is a logger-like name)"""
 
     def __init__(self, nodes=(), postprocess_nodes=None, budget=None, tags=None):
         super().__init__(nodes, postprocess_nodes)
         self.budget = budget
         self.tags = tags if tags is not None else []
+        self.topology = 'dag-%s' % budget
+        self._log_note = 'left out of every save by design'
+
+
+class HNode(OptNode):
+    """node subclass with extra attributes whose names contain 'log' not at the start"""
+
+    def __init__(self, content, nodes_from=None, catalog_key=None):
+        super().__init__(content, nodes_from)
+        self.catalog_key = catalog_key
+        self.dialog = {'topology': [1, 2], 'analog_gain': 0.5}
+        self.logbook = 'left out of every save by design'
+
+
+class HIndividual(Individual):
+    """individual subclass carrying an extra attribute"""
+
+
+def h_individual(graph, **kw):
+    ind = HIndividual(graph, **kw)
+    object.__setattr__(ind, 'genealogy', {'catalog_id': 7, 'branch': 'x'})
+    object.__setattr__(ind, 'logged_at', 'left out of every save by design')
+    return ind
+
+
+class HFitness(SingleObjFitness):
+    """fitness subclass with an extra attribute"""
+
+    def __init__(self, *values, analog_gain=None):
+        super().__init__(*values)
+        self.analog_gain = analog_gain
 
 
 class HOptGraph(OptGraph):
@@ -735,7 +800,7 @@ class HOptGraph(OptGraph):
 
 
 def mk_graph(rng, shape=None):
-    shape = rng.randrange(8) if shape is None else shape
+    shape = rng.randrange(9) if shape is None else shape
     if shape == 0:
         return OptGraph(OptNode('a'))
     if shape == 1:
@@ -751,7 +816,10 @@ def mk_graph(rng, shape=None):
         return OptGraph(OptNode('a', [OptNode('b')]), postprocess_nodes=HCallbacks.count_nodes)
     if shape == 6:      # subclasses with extra fields, default callback
         return HOptGraph(OptNode('a', [OptNode('b')]), label='variant', budget=3, tags=['x', {'k': 1.5}])
-    return HOptGraph(OptNode('r', [OptNode('p'), OptNode('q')]), label=None, postprocess_nodes=remember_size, budget=0, tags=[])
+    if shape == 7:
+        return HOptGraph(OptNode('r', [OptNode('p'), OptNode('q')]), label=None, postprocess_nodes=remember_size, budget=0, tags=[])
+    p = HNode('p', catalog_key='k-1')     # nodes of a subclass with extra attributes
+    return OptGraph(HNode({'name': 'r', 'params': {'x': 1}}, [p, OptNode('plain')], catalog_key=None))
 
 
 def graph_behaviour_check(loaded_objs, original_objs):
@@ -886,7 +954,11 @@ class Synth:
             meta = dict(mk_meta(rng))
             if spec.get('meta') is not None:
                 meta = resolve_meta(spec['meta'])
-            inds.append(Individual(mk_graph(rng, spec.get('graph')), parent_operator=po, metadata=meta, fitness=fit, **kw))
+            sub = spec.get('subclass', not multi and rng.random() < 0.12)
+            if sub and isinstance(fit, SingleObjFitness) and fit.valid:
+                fit = HFitness(*fit.values, analog_gain=rng.choice([None, 0.25]))
+            make = h_individual if sub else Individual
+            inds.append(make(mk_graph(rng, spec.get('graph')), parent_operator=po, metadata=meta, fitness=fit, **kw))
         objective = ObjectiveInfo(multi, tuple(rc.get('metric_names', ())))
         h = OptHistory(objective, rc.get('save_dir')) if rc.get('objective', True) else OptHistory()
         steps = rc.get('steps')
@@ -986,6 +1058,10 @@ def fixed_recipes():
                  {'inds': [{'graph': 1}, {'graph': 4}, {'graph': 5, 'op': 'mutation', 'parents': [1]}, {'graph': 6, 'op': 'crossover', 'parents': [0, 1]},
                            {'graph': 7, 'op': 'mutation', 'parents': [3], 'evaluated': False}, {'graph': 4, 'op': 'mutation', 'parents': [4]}],
                   'gens': [{'members': [0, 1]}, {'members': [2, 3, 5]}], 'snaps': [[1], [3, 5]], 'dump': True, 'tuning': True}))
+    R.insert(7, ('user subclasses of node, graph, individual and fitness with extra attributes whose names contain "log"',
+                 {'inds': [{'graph': 8, 'subclass': True}, {'graph': 6, 'subclass': True, 'op': 'mutation', 'parents': [0]},
+                           {'graph': 8, 'op': 'crossover', 'parents': [0, 1]}, {'graph': 1, 'subclass': True, 'op': 'mutation', 'parents': [2], 'evaluated': False}],
+                  'gens': [{'members': [0]}, {'members': [1, 2]}], 'snaps': [[0], [2, 3]], 'dump': True}))
     # incremental dumps
     R.insert(7, ('generation listing an individual twice before other members (dumped)',
                  {'inds': [{}, {}, {'op': 'mutation', 'parents': [0]}, {'op': 'crossover', 'parents': [0, 1]}],
@@ -1211,7 +1287,7 @@ def evaluate(ctx, group, items):
         ctx.count(group, key=json.dumps(case, sort_keys=True, default=str), nontrivial=non_trivial(o), in_guard=guard,
                   intermediate=min(s['intermediate'], 5), generations=min(len(o['mem']['gens']), 8),
                   multi=o['mem']['obj']['multi'])
-        vc = dict(case, summary=s) if isinstance(case, dict) and ('legacy_variant' in case or 'extend_seed' in case) else {'recipe': case, 'summary': s}
+        vc = dict(case, summary=s) if isinstance(case, dict) and ('legacy_variant' in case or 'extend_seed' in case or 'plugin_sequence' in case) else {'recipe': case, 'summary': s}
         if not ag:
             ctx.disagree(group, vc, 'model and implementation differ (encode / decode / re-encode)')
         if not ho and guard:
@@ -1388,6 +1464,12 @@ def run(ctx):
     if items:
         ctx.sample(summary(items[-1][2], items[-1][0]))
 
+    # ---- (e) one text loaded repeatedly while the module of its node class goes away and comes back
+    items = []
+    for k in range(ctx.budget(2, 6)):
+        items.extend(plugin_sequence(ctx, rng.randrange(10 ** 6)))
+    evaluate(ctx, 'plugin-reload', items)
+
     evaluate_dumps(ctx, dumps)
     check_legacy_tables(ctx)
 
@@ -1446,6 +1528,84 @@ def continuation_case(ctx, desc, case, o0, seed):
     return ('continued after load: ' + desc, ident, o)
 
 
+PLUGIN_SOURCE = '''
+from golem.core.optimisers.graph import OptNode
+
+
+class PluginNode(OptNode):
+    """domain node of a plug-in module"""
+
+    def gain(self):
+        return self.content.get('params', {}).get('gain', 1.0)
+'''
+
+
+def plugin_sequence(ctx, seed):
+    """one saved text loaded repeatedly in this process: first while the module defining its node class is NOT
+    importable (documented fallback: nodes become LinkedGraphNode), then with the module importable again.
+    Every load is judged on its own: the fallback load as a history in its own right (its re-save / re-load),
+    the later load against the history that was saved.  -> list of (desc, ident, obs)"""
+    import sys
+    rng = random.Random(seed)
+    name = 'c10_plugin_%d_%d' % (os.getpid(), seed)
+    tmp = tempfile.mkdtemp(prefix='c10_plugin_')
+    ident = {'plugin_sequence': seed}
+    items = []
+
+    def install():
+        sys.path.insert(0, tmp)
+        importlib.invalidate_caches()
+        _RESOLVABLE.clear()
+        return importlib.import_module(name)
+
+    def uninstall():
+        if tmp in sys.path:
+            sys.path.remove(tmp)
+        sys.modules.pop(name, None)
+        importlib.invalidate_caches()
+        _RESOLVABLE.clear()
+    try:
+        with open(os.path.join(tmp, name + '.py'), 'w') as f:
+            f.write(PLUGIN_SOURCE)
+        mod = install()
+
+        def g(tag):
+            first = mod.PluginNode({'name': tag + '_in', 'params': {'gain': 0.5}})
+            return OptGraph([mod.PluginNode({'name': tag + '_out', 'params': {'gain': 2.0}}, nodes_from=[first]), first])
+        h = OptHistory(ObjectiveInfo(False, ('loss',)))
+        a = Individual(g('a'), fitness=SingleObjFitness(rng.choice(DY)))
+        b = Individual(g('b'), fitness=SingleObjFitness(rng.choice(DY)))
+        h.add_to_history([a, b], 'initial_assumptions')
+        h.add_to_archive_history([a])
+        c = Individual(g('c'), parent_operator=ParentOperator('mutation', ('single_change',), (a,)), fitness=SingleObjFitness(rng.choice(DY)))
+        h.add_to_history([c, a])
+        h.add_to_archive_history([c])
+        text = h.save()
+        for round_no in range(2):
+            # the module is not importable: the text loads with the fallback node class
+            uninstall()
+            try:
+                fallback = OptHistory.load(text)
+                o = observe(fallback, pre_text=text)
+                items.append(('plug-in module not importable (load %d)' % (2 * round_no + 1), dict(ident, load=2 * round_no + 1), o))
+            except (TypeViolation, ImplRaised) as ex:
+                ctx.violate('plugin-reload', dict(ident, load=2 * round_no + 1), 'load without the plug-in module: %s' % ex)
+            # the module is importable again: the same text must come back with the saved node class
+            mod2 = install()
+            try:
+                o = observe(h)
+                o['text_equal'] = o['text_equal'] and o['text'] == text
+                if o['fitness_ok'] and not all(hasattr(n, 'gain') for i in o['loaded']['_objects'] for n in i.graph.nodes):
+                    o['fitness_ok'], o['fitness_detail'] = False, 'nodes of the loaded graphs are not of the saved (plug-in) class'
+                items.append(('plug-in module importable again (load %d)' % (2 * round_no + 2), dict(ident, load=2 * round_no + 2), o))
+            except (TypeViolation, ImplRaised) as ex:
+                ctx.violate('plugin-reload', dict(ident, load=2 * round_no + 2), 'load with the plug-in module importable: %s' % ex)
+    finally:
+        uninstall()
+        shutil.rmtree(tmp, ignore_errors=True)
+    return items
+
+
 def legacy_rewritten_case(ctx, desc, case, o0, variant, plain):
     """the current-format save o0['text'] rewritten to an earlier format -> load -> the usual chain.  The objects
     must come back with their types (not as dicts) and the re-saved text must be the current-format original."""
@@ -1493,6 +1653,9 @@ def light_case(ctx, h, cfg):
 def replay(ctx, payload):
     v = payload.get('violation') or payload.get('first_disagreement') or payload
     case = (v.get('case') or {}) if isinstance(v, dict) else {}
+    if case.get('plugin_sequence') is not None:
+        evaluate(ctx, 'replay', plugin_sequence(ctx, case['plugin_sequence']))
+        return
     rc = case.get('recipe')
     if not isinstance(rc, dict):
         return
